@@ -186,6 +186,11 @@ class FormulaMaterializer(metaclass=FormulaMaterializerMeta):
     ) -> Union[ModelMatrix, ModelMatrices]:
         from formulaic import ModelSpec
 
+        # Evaluated and encoded factors are shared between the matrices built by
+        # one call only: they depend on its specs, options and dropped rows.
+        self.factor_cache = {}
+        self.encoded_cache = {}
+
         # Prepare ModelSpec(s)
         spec: Union[ModelSpec, ModelSpecs] = ModelSpec.from_spec(
             spec, context=self.layered_context, **spec_overrides
